@@ -15,12 +15,12 @@ from common import req, close, relerr, TOL, run_driver
 import mixgen
 
 META = {
-    'text': 'Theorems (Lean 4, reals, every component count and relabelling): mole fractions and all PR coefficients (A, B, Ap, Bp, incl. the group-contribution delta_ij computed inside coefs) are invariant under scaling of all masses, equivariant under relabelling of the components and unchanged by an appended zero-mass component; the equivalent diameter scales with the cube root of the factor. Scale invariance is ALSO proved directly about the code regenerated from dbm_p.py on every run (gen_*_smul: mole_fraction, coefs with both delta branches, z_pr, fugacity, density, for every root finder and all list lengths), and the relabelling theorem is proved about the regenerated coefs for a user / zero interaction matrix (gen_coefs_perm_no_gc_partial; the group-contribution double loop only on the hand model). The routines not re-proved (viscosity, interfacial tension, solubility, flash) consume masses only through these; all of them are evaluated on the real code on (m, lambda*m, permuted m, m+[0]) for both back ends.',
+    'text': 'Theorems (Lean 4, reals, every component count and relabelling): mole fractions and all PR coefficients (A, B, Ap, Bp, incl. the group-contribution delta_ij computed inside coefs) are invariant under scaling of all masses, equivariant under relabelling of the components and unchanged by an appended zero-mass component; the equivalent diameter scales with the cube root of the factor. Scale invariance is ALSO proved directly about the code regenerated from dbm_p.py on every run (gen_*_smul: mole_fraction, coefs with both delta branches, z_pr, fugacity, density, for every root finder and all list lengths), and the relabelling and zero-component theorems are proved about the regenerated coefs on BOTH interaction-coefficient branches, incl. the group-contribution double loop (gen_coefs_perm, gen_coefs_append_zero in Props/C10GenGC.lean, via the refinement theorems of C01). The routines not re-proved (viscosity, interfacial tension, solubility, flash) consume masses only through these; all of them are evaluated on the real code on (m, lambda*m, permuted m, m+[0]) for both back ends.',
     'note': 'Trusted: Lean kernel + 3 standard axioms; hand model of mole_fraction/coefs (tied by correspondence in C01 and here); real arithmetic for doubles. Partial: invariance of viscosity, interface_tension, solubility and the flash is decided on the real code by sampling (structural argument only in Lean); flash results are compared at solver tolerance.',
     'technique': 'Lean 4 invariance/equivariance proofs over a hand-written executable model + metamorphic execution of the real code on both back ends',
 }
 GEN = ['eosfull']
-MODULES = ['TamocV.Props.C10Gen', 'TamocV.Props.C10', 'TamocV.Model.Eos', 'TamocV.Gen.EosFullPy']
+MODULES = ['TamocV.Props.C10GenGC', 'TamocV.Props.C10Gen', 'TamocV.Props.C10', 'TamocV.Model.Eos', 'TamocV.Gen.EosFullPy']
 RULE = ('mixtures of 2-6 database compounds (water excluded from flashes), random permutation (every permutation class reachable), '
         'scale factor log-uniform 1e-6..1e3, compound of zero mass inserted at a random position (also first), user volume shifts for all, none or SOME compounds, 270-400 K, 1e5-5e7 Pa, zero/constant/group-contribution '
         'delta, Lin-Duan / user Peneloux; non-trivial = distinct (composition, permutation, delta mode, rounded state)')
@@ -30,7 +30,7 @@ FLASH_TOL = 5e-5
 
 def audit_files():
     return ['TamocV/Num.lean', 'TamocV/Real.lean', 'TamocV/Model/Eos.lean', 'TamocV/Lemmas/Basic.lean',
-            'TamocV/Lemmas/Eos.lean', 'TamocV/Lemmas/C10.lean', 'TamocV/Lemmas/EosRefine.lean', 'TamocV/Props/C10.lean', 'TamocV/Props/C10Gen.lean', 'TamocV/Lemmas/C10Gen.lean', 'TamocV/Props/C01.lean', 'TamocV/Lemmas/C01.lean']
+            'TamocV/Lemmas/Eos.lean', 'TamocV/Lemmas/C10.lean', 'TamocV/Lemmas/EosRefine.lean', 'TamocV/Props/C10.lean', 'TamocV/Props/C10Gen.lean', 'TamocV/Props/C10GenGC.lean', 'TamocV/Lemmas/C10Gen.lean', 'TamocV/Lemmas/EosRefineGC.lean', 'TamocV/Props/C01GC.lean', 'TamocV/Props/C01.lean', 'TamocV/Lemmas/C01.lean']
 
 
 class Timeout(Exception):
